@@ -167,6 +167,11 @@ impl TryDecode for DisconnectRx {
             return Err(InvalidPacketSize.into());
         }
 
+        // Remaining length 0: the reason code is omitted and is 0x00 (Normal disconnection).
+        if decoder.remaining() == 0 {
+            return builder.build();
+        }
+
         let reason = decoder.try_decode::<DisconnectReason>()?;
         builder.reason(reason);
 
